@@ -217,12 +217,29 @@ func probeWalk(p *Program, f *ssa.Function, blk *ssa.BasicBlock, start int, vals
 					accounted = true
 					break instrs
 				}
-				// error return?
-				last := x.Results[len(x.Results)-1]
-				if _, isErr := last.Type().Underlying().(*types.Interface); isErr && len(x.Results) >= 2 {
-					if k, ok := last.(*ssa.Const); !ok || !k.IsNil() {
-						accounted = true
-						break instrs
+				// error return? (a value that may be nil on this path is not one)
+				if len(x.Results) >= 1 && errClass(x) == 1 {
+					accounted = true
+					break instrs
+				}
+				if len(x.Results) >= 2 {
+					last := x.Results[len(x.Results)-1]
+					if _, isErr := last.Type().Underlying().(*types.Interface); isErr {
+						if phi, isPhi := last.(*ssa.Phi); isPhi {
+							mayNil := false
+							for _, e := range phi.Edges {
+								if k, ok := e.(*ssa.Const); ok && k.IsNil() {
+									mayNil = true
+								}
+							}
+							if !mayNil {
+								accounted = true
+								break instrs
+							}
+						} else if k, ok := last.(*ssa.Const); !ok || !k.IsNil() {
+							accounted = true
+							break instrs
+						}
 					}
 				}
 				return fmt.Sprintf("the function returns successfully at %s with this token neither matched, used, pushed back nor reported: the caller's next scan skips it", p.Pos(x.Pos()))
